@@ -44,7 +44,7 @@ static const char *CTN[CT_COUNT] = {
     "fault_delivery_short", "fault_delivery_zero", "delivery_full",
     "fault_os_eintr", "fault_os_eagain", "fault_os_permanent", "os_success", "fault_os_open_fail", "fault_os_short_read",
     "fault_os_stale_errno_on_success", "fault_os_scribble_on_failure", "fault_dirty_object_memory", "fault_abandon_midway",
-    "fault_free_injected", "fault_alloc_fail_runs", "fault_stack_paint", "fault_os_echo_delivery", "fault_sleep_interrupted", "simulated_sleeps", "simulated_clock_reads", "fault_fork_identity_change", "fault_boundary_address_placement", "nested_generator_draws", "fault_object_moved_by_caller", "fault_wall_clock_jump", "calls_through_c_caller_with_opaque_handles",
+    "fault_free_injected", "fault_alloc_fail_runs", "fault_stack_paint", "fault_os_echo_delivery", "fault_sleep_interrupted", "simulated_sleeps", "simulated_clock_reads", "fault_fork_identity_change", "fault_boundary_address_placement", "nested_generator_draws", "fault_object_moved_by_caller", "fault_wall_clock_jump", "probe_calls_through_c_caller_with_opaque_handles",
     "probe_hash_topup_and_continue", "probe_hash_topup_exact", "probe_hash_topup_short", "probe_hash_empty_update", "probe_hash_null_update",
     "probe_hash_finalize_checked", "probe_hash_reinit_mid_message", "probe_hash_init_after_free", "probe_hash_init_after_finalize",
     "probe_hmac_key_empty", "probe_hmac_key_lt64", "probe_hmac_key_eq64", "probe_hmac_key_gt64", "probe_hmac_finalize_checked", "probe_hmac_oneshot_checked",
